@@ -53,3 +53,26 @@ Lemma table_lookup_total : forallb (fun ek => match lookup (fst ek) format_table
                                               | Some k => Nat.eqb (kind_code k) (kind_code (snd ek)) | None => false end)
                                    format_table = true.
 Proof. vm_compute. reflexivity. Qed.
+
+(* ---- per-frame completeness through histories: after ANY history (whose xyz assignments keep the number of frames: the one
+        assignment mdtraj does not check) every register's stored lengths and angles have exactly one row per frame.
+        (The invariant is MD.Traj.Proofs.run_lens_init, proved for C03; restated here for the cell alone.) *)
+Definition cell_rows_per_frame (t : traj) : Prop :=
+  (forall c, ul t = Some c -> List.length (a_val c) = nframes t) /\
+  (forall c, ua t = Some c -> List.length (a_val c) = nframes t).
+
+Lemma lengths_ok_cell t : lengths_ok t = true -> cell_rows_per_frame t.
+Proof.
+  unfold lengths_ok, cell_rows_per_frame. intros H.
+  apply andb_true_iff in H. destruct H as [H Ha]. apply andb_true_iff in H. destruct H as [_ Hl]. split; intros c E.
+  - rewrite E in Hl. apply Nat.eqb_eq. exact Hl.
+  - rewrite E in Ha. apply Nat.eqb_eq. exact Ha.
+Qed.
+
+Lemma per_frame_cell_after_any_history v sps ops :
+  guarded xyz_guard v (init_world sps) ops = true ->
+  Forall cell_rows_per_frame (trajs (fst (run v (init_world sps) ops))).
+Proof.
+  intros Hg. pose proof (run_lens_init v sps ops Hg) as H. unfold lens in H.
+  eapply Forall_impl; [|exact H]. intros t Ht. apply lengths_ok_cell. exact Ht.
+Qed.
